@@ -548,6 +548,18 @@ func errorPropagated(fn *ssa.Function, after ssa.Instruction, r ssa.Value) (bool
 			}
 		}
 	}
+	// r kept in a variable cell (a captured or address-taken `err`): later loads of the cell are r,
+	// as long as they are dominated by the store of r and no other store to the cell can come between
+	cellOfR := map[*ssa.Alloc]*ssa.Store{}
+	for _, b := range fn.Blocks {
+		for _, ins := range b.Instrs {
+			if st, ok := ins.(*ssa.Store); ok && carries[st.Val] {
+				if cell := ir.CellOf(st.Addr); cell != nil {
+					cellOfR[cell] = st
+				}
+			}
+		}
+	}
 	isR := func(v ssa.Value) bool {
 		if carries[v] {
 			return true
@@ -555,6 +567,21 @@ func errorPropagated(fn *ssa.Function, after ssa.Instruction, r ssa.Value) (bool
 		for c := range carries {
 			if sameValue(v, c) {
 				return true
+			}
+		}
+		if ld, ok := v.(*ssa.UnOp); ok && ld.Op == token.MUL {
+			if cell := ir.CellOf(ld); cell != nil {
+				if st := cellOfR[cell]; st != nil && st.Parent() == ld.Parent() && ir.Before(st, ld) {
+					clean := true
+					for _, b := range fn.Blocks {
+						for _, ins := range b.Instrs {
+							if o, ok := ins.(*ssa.Store); ok && o != st && ir.CellOf(o.Addr) == cell && ir.InstrReaches(st, o) && ir.InstrReaches(o, ld) {
+								clean = false
+							}
+						}
+					}
+					return clean
+				}
 			}
 		}
 		return false
